@@ -61,6 +61,30 @@ def gen_case(rng, i, tier):
     return ops
 
 
+def gen_backwalk_case(rng, i):
+    """a link re-paginated so that many pages carry only the tail of a packet begun on the page before (legal Ogg): a seek whose bisection ends on such a
+    page walks backwards page by page (_get_prev_page); faults of every kind, one-shot and persisting, are armed k callbacks ahead of such seeks"""
+    ch, rate = rng.choice([(3, 44100), (3, 48000)])
+    n = rng.choice([6000, 12000, 20000])
+    links = ["link %d %d 0.7 %d 5 %d %d %d" % (ch, rate, n, rng.randrange(1, 90000), rng.choice([0, 1]), rng.choice([0, 1000]))]
+    ops = ["case %d" % i] + links
+    for j in range(rng.choice([6, 12, 25])):
+        ops.append("pagedamage 16 %d 0 %d" % (rng.randrange(0, 40), rng.randrange(0, 8)))
+    ops += ["ref 0", "open 0 1 %d" % rng.choice([4096, 513, 100000]), "open 1 1 4096"]
+    for _ in range(rng.randint(10, 24)):
+        t = rng.randrange(0, n + 1)
+        kind = rng.choice(["pcmseek", "pcmseek", "pcmseekpage", "pcmseeklap", "timeseek"])
+        arg = int(1000.0 * t / rate) if kind == "timeseek" else t
+        ops.append("fault 0 %d %d %d" % (rng.randrange(0, 30), rng.choice([2, 2, 1, 3, 4]), rng.choice([1, 1, 0])))
+        ops.append("%s 0 %d" % (kind, arg))
+        ops.append("nofault 0")
+        t2 = rng.randrange(0, n + 1)
+        for slot in (0, 1):
+            ops += ["pcmseek %d %d" % (slot, t2), "tell %d" % slot, "read %d 4096" % slot]
+    ops += ["clear 0", "clear 1"]
+    return ops
+
+
 def strip_slot(op):
     t = op.split(" ")
     return " ".join([t[0]] + t[2:])
@@ -167,6 +191,7 @@ def run(chk):
                 i += 1
     n = 150 if chk.tier == "quick" else 3000
     cases += [gen_case(chk.rng, i + j, chk.tier) for j in range(n)]
+    cases += [gen_backwalk_case(chk.rng, i + n + j) for j in range(24 if chk.tier == "quick" else 400)]
     fired = 0
     ofail = []
     res_all = []
@@ -187,6 +212,7 @@ def run(chk):
                               {"ops": d["ops"][1:10], "answers": [a for _, a in d["ans"] if isinstance(a, str)][:10]})
     chk.coverage["rule"] = ("(a) for every callback invocation index 0..N during ov_open_callbacks (N=23 quick, 89 thorough) and every fault kind (read error with errno, zero read, "
                             "one-byte read, seek -1, tell -1), one-shot and persisting, one-shot faults at every index on chains of two and of three links: failed open must leave the handle zeroed and the source unclosed; "
+                            "(a') links re-paginated so that many pages carry only the tail of a packet: seeks that walk backwards page by page, with faults of every kind armed 0..29 callbacks ahead; "
                             "(b) random histories in which a fault is armed k callbacks ahead, 1-3 calls run under it, the fault is lifted, then the same seek + tell + 3 reads are "
                             "issued on the handle and on a twin that never saw a failure: the answer lines (return codes, positions, bit-exact data flag) must coincide; "
                             "run under ASan/UBSan and again un-instrumented with MALLOC_PERTURB_")
